@@ -151,46 +151,75 @@ func discharge(obls []*Obligation, opt solveOpts) {
 			file := filepath.Join(opt.workDir, fileSafe(o.Name)+".smt2")
 			os.WriteFile(file, []byte(obligationText(o, false)), 0o644)
 			start := time.Now()
-			// sequential portfolio with an escalating schedule: quick try with each, then full timeout
-			type attempt struct {
-				cfg solverCfg
-				t   int
-			}
-			var plan []attempt
+			// portfolio: a quick sequential try with each configuration, then (only for the few obligations
+			// that are still open) a race of all configurations plus two reseeded ones under the full timeout.
+			// Racing makes the verdict independent of one unlucky quantifier-instantiation order.
 			short := 2
 			if opt.timeoutS < short {
 				short = opt.timeoutS
 			}
-			for _, c := range cfgs {
-				plan = append(plan, attempt{c, short})
-			}
-			if opt.timeoutS > short && !o.ExpectSat {
-				for _, c := range cfgs {
-					plan = append(plan, attempt{c, opt.timeoutS})
-				}
-			}
-			if o.ExpectSat {
-				// vacuity probes: only a definite 'unsat' matters; one short attempt
-				plan = plan[:1]
-			}
 			o.Status = "unknown"
-			for _, a := range plan {
-				st, out := runOne(context.Background(), a.cfg, file, a.t, opt.seed)
+			record := func(st, out, name string) bool {
 				if st == "unsat" || st == "sat" {
-					o.Status, o.Solver, o.Output = st, a.cfg.name, out
-					break
+					o.Status, o.Solver, o.Output = st, name, out
+					return true
 				}
 				if st == "error" && o.Output == "" {
 					o.Output = out
 					o.Status = "error"
-					o.Solver = a.cfg.name
+					o.Solver = name
 				} else if st != "error" {
 					o.Status = st
-					o.Solver = a.cfg.name
+					o.Solver = name
 					if o.Output == "" {
 						o.Output = out
 					}
 				}
+				return false
+			}
+			done := false
+			for i, c := range cfgs {
+				if i > 0 {
+					// one short attempt with the default configuration (also all a vacuity probe gets: there only
+					// a definite 'unsat' matters); everything still open goes to the race
+					break
+				}
+				st, out := runOne(context.Background(), c, file, short, opt.seed)
+				if record(st, out, c.name) {
+					done = true
+					break
+				}
+			}
+			if !done && opt.timeoutS > short && !o.ExpectSat {
+				type res struct{ st, out, name string }
+				ctx, cancel := context.WithCancel(context.Background())
+				type racer struct {
+					cfg  solverCfg
+					seed int
+				}
+				var rs []racer
+				for _, c := range cfgs {
+					rs = append(rs, racer{c, opt.seed})
+				}
+				rs = append(rs, racer{cfgs[0], opt.seed + 101}, racer{cfgs[0], opt.seed + 202})
+				ch := make(chan res, len(rs))
+				for _, r := range rs {
+					go func(r racer) {
+						st, out := runOne(ctx, r.cfg, file, opt.timeoutS, r.seed)
+						ch <- res{st, out, r.cfg.name}
+					}(r)
+				}
+				for range rs {
+					r := <-ch
+					if done {
+						continue
+					}
+					if record(r.st, r.out, r.name) {
+						done = true
+						cancel()
+					}
+				}
+				cancel()
 			}
 			o.Seconds = time.Since(start).Seconds()
 		}(o)
